@@ -89,15 +89,17 @@ Build(rows, ch, ep) ==                        \* ridges in increasing row order
             ELSE <<[y |-> y, x0 |-> ch[y][1], x1 |-> ch[y][1] + RidgeLen(ch[y], ep) - 1,
                     a2 |-> Asc2(y), d2 |-> Desc2(y)]>> \o rest
 RidgeInit == /\ Mode = "ridges"
-             /\ \E k \in 0..3, ds \in Dss, ep \in BOOLEAN, ch \in [Rows -> Options] :
+             /\ \E k \in 0..3, ds \in Dss, ep \in BOOLEAN, rm \in BOOLEAN, ch \in [Rows -> Options] :
                    /\ \E y \in Rows : ch[y] # <<0, 0>>
                    /\ \A y \in Rows : ch[y] # <<0, 0>> => ch[y][1] + RidgeLen(ch[y], ep) - 1 <= MapW - 1
-                   /\ cfg = [k |-> k, ds |-> ds, ep |-> ep, ridges |-> Build(Rows, ch, ep)]
+                   /\ cfg = [k |-> k, ds |-> ds, ep |-> ep, rm |-> rm, ridges |-> Build(Rows, ch, ep)]
              /\ pc = "maps" /\ lines = <<>>
 
 \* shapes: the maps belong to the rotated image
-RotH == MapH * cfg.ds
-RotW == MapW * cfg.ds
+\* ... whose size need not be a multiple of the down-sampling factor (cfg.rm: page with remainders ds-1 and ds \div 2);
+\* un-rotation must use the image's real size, not map size x ds
+RotH == MapH * cfg.ds + (IF cfg.rm THEN cfg.ds - 1 ELSE 0)
+RotW == MapW * cfg.ds + (IF cfg.rm THEN cfg.ds \div 2 ELSE 0)
 OrigH == IF cfg.k \in {1, 3} THEN RotW ELSE RotH
 OrigW == IF cfg.k \in {1, 3} THEN RotH ELSE RotW
 
